@@ -1552,7 +1552,7 @@ class Kconfig(object):
                     choices_with_user_set_value[sym.choice].append((sym, val))
                     continue
 
-                if sym._was_set:
+                if sym._was_set and sym._user_value is not None:
                     self._assigned_twice(sym, val, filename, linenr)
 
                 # Normalize float values to ensure consistent representation (e.g., "5" -> "5.0")
